@@ -3,6 +3,7 @@
 package proto
 
 import (
+	"errors"
 	"io"
 	"net"
 	"sync"
@@ -61,12 +62,18 @@ func (c *vfCore) rec(r vfRoute) error {
 	c.calls = append(c.calls, r)
 	if c.scribble && !lib.VerifSymbolic() {
 		// native replay of the use-after-release model: the pooled buffer is reused by someone else
-		b := lib.TakeBuffer()
-		b.Allocate(64)
-		for i := range b.B {
-			b.B[i] = 0xEE
+		var taken []*lib.Buffer
+		for k := 0; k < 16; k++ {
+			b := lib.TakeBuffer()
+			b.Allocate(64)
+			for i := range b.B {
+				b.B[i] = 0xEE
+			}
+			taken = append(taken, b)
 		}
-		lib.ReleaseBuffer(b)
+		for _, b := range taken {
+			lib.ReleaseBuffer(b)
+		}
 	}
 	return c.result
 }
@@ -200,3 +207,5 @@ func vfQueueContents(c *connection) [][]*lib.Buffer {
 	}
 	return out
 }
+
+var errVfRemote = errors.New("remote reason")
